@@ -23,6 +23,7 @@ import FFVerif.Model.Chol
 import FFVerif.Model.Gram
 import FFVerif.Model.Deriv
 import FFVerif.Model.SormPipe
+import FFVerif.Model.NormalFloat
 import FFVerif.Props.C19
 import FFVerif.Props.C20
 import FFVerif.Gen.DiffTables
@@ -64,11 +65,36 @@ def vecList (n : Nat) (v : Nat → Float) : List Float := (List.range n).map v
 def matList (n : Nat) (m : Nat → Nat → Float) : List Float :=
   (List.range n).flatMap (fun i => (List.range n).map (fun j => m i j))
 
-/-- marginals: kinds `n` (normal: p1 = mu, p2 = sigma) / `l` (lognormal: p1 = m, p2 = s), `,`-separated -/
+/-- a marginal family given by cdf-free closed forms: `ofZ`, `toZ`, pdf and `(ln f)'`; the slope and curvature follow -/
+def generalMarg (ofZ toZ pdf dlogpdf : Float → Float) : Nataf.Marg Float :=
+  let dxdz : Float → Float := fun x => NormalFloat.phi (toZ x) / pdf x
+  .general ofZ toZ dxdz (fun x => dxdz x * (-(toZ x) - dlogpdf x * dxdz x))
+
+/-- marginals: kinds `n` (normal: p1 = mu, p2 = sigma), `l` (lognormal: p1 = m, p2 = s), `e` (exponential: p2 = scale),
+`u` (uniform: p1 = loc, p2 = width), `g` (Gumbel, right-skewed: p1 = loc, p2 = scale), `w` (Weibull: p1 = shape, p2 = scale),
+`,`-separated -/
 def parseMargs (kinds : String) (p1 p2 : Array Float) : Option (Nat → Nataf.Marg Float) := do
   let ks := (kinds.splitOn ",").toArray
-  if ks.any (fun k => k ≠ "n" ∧ k ≠ "l") then none else
-  some (fun i => if ks.getD i "n" == "l" then .lognormal (p1.getD i 0) (p2.getD i 1) else .normal (p1.getD i 0) (p2.getD i 1))
+  if ks.any (fun k => !(["n", "l", "e", "u", "g", "w"].contains k)) then none else
+  some (fun i =>
+    let a := p1.getD i 0
+    let b := p2.getD i 1
+    match ks.getD i "n" with
+    | "l" => .lognormal a b
+    | "e" => generalMarg (fun z => b * NormalFloat.survNegLog z) (fun x => NormalFloat.quantOfOneMinusExpNeg (x / b))
+               (fun x => Float.exp (-x / b) / b) (fun _ => -1.0 / b)
+    | "u" => generalMarg (fun z => if z > 0 then a + b - b * NormalFloat.Phi (-z) else a + b * NormalFloat.Phi z)
+               (fun x => if (x - a) / b > 0.5 then -(NormalFloat.PhiInv ((a + b - x) / b)) else NormalFloat.PhiInv ((x - a) / b))
+               (fun _ => 1.0 / b) (fun _ => 0.0)
+    | "g" => generalMarg (fun z => a - b * Float.log (NormalFloat.cdfNegLog z))
+               (fun x => NormalFloat.quantOfExpNeg (Float.exp (-(x - a) / b)))
+               (fun x => let y := (x - a) / b; Float.exp (-(y + Float.exp (-y))) / b)
+               (fun x => let y := (x - a) / b; (-1.0 + Float.exp (-y)) / b)
+    | "w" => generalMarg (fun z => b * Float.pow (NormalFloat.survNegLog z) (1.0 / a))
+               (fun x => NormalFloat.quantOfOneMinusExpNeg (Float.pow (x / b) a))
+               (fun x => a / b * Float.pow (x / b) (a - 1.0) * Float.exp (-(Float.pow (x / b) a)))
+               (fun x => (a - 1.0) / x - a / b * Float.pow (x / b) (a - 1.0))
+    | _ => .normal a b)
 
 /-- quadratic limit state `c0 + b·x + xᵀ Q x` and its gradient `b + (Q + Qᵀ) x` -/
 def quadG (n : Nat) (c0 : Float) (b : Nat → Float) (Q : Nat → Nat → Float) : (Nat → Float) → Float :=
@@ -247,6 +273,10 @@ def handle (toks : List String) : Option String :=
       (oracle.splitOn "|").mapM (fun lv => (lv.splitOn ";").mapM parseList))
     let r := Subset.pf a b N (Subset.run nc ms (ms + 1) g0 orc)
     some s!"{r.1} {r.2}"
+  | ["normalfloat", zs] => do
+    -- Phi(z), phi(z), PhiInv(Phi(z)) of the driver's double-precision normal functions (validated against scipy by the harness)
+    let zs ← parseFloatCsv zs
+    some (showFloats (zs.toList.flatMap (fun z => [NormalFloat.Phi z, NormalFloat.phi z, NormalFloat.PhiInv (NormalFloat.Phi z)])))
   | ["gradhess", m, d, c0, b, Q, xs, dx] => do
     -- gradient and Hessian of the quadratic c0 + b.x + x'Qx by the regenerated first-derivative table with m points
     let m ← m.toNat?
